@@ -15,9 +15,10 @@
 #include "vfh.h"
 #include <set>
 using namespace vfh;
-struct Boom { int id; };
+static int booms = 0;   // live exception objects: a captured exception that is overwritten by a second thrower's, or never released, stays alive
+struct Boom { int id; explicit Boom(int i) : id(i) { ++booms; } Boom(const Boom& o) : id(o.id) { ++booms; } ~Boom() { --booms; } };
 static int mask = 0, inv = 0, live = 0, started_after = 0, caught_at = -1; static std::set<int> thrown; static bool returned = false; static int objs = 0;
-static void body() { int me = inv++; if (returned) vf_fail("a body started after the waiting call had returned or thrown"); live++; vf_point(); if (mask >> me & 1) { thrown.insert(me); live--; throw Boom{me}; } vf_point(); live--; }
+static void body() { int me = inv++; if (returned) vf_fail("a body started after the waiting call had returned or thrown"); live++; vf_point(); if (mask >> me & 1) { thrown.insert(me); live--; throw Boom(me); } vf_point(); live--; }
 struct Obj { Obj() { objs++; } Obj(const Obj&) { objs++; } ~Obj() { objs--; } };
 template <class F> static void guarded(const char* what, F f) {   // runs the waiting call, checks the exception contract
     returned = false; bool got = false; int id = -1;
@@ -53,11 +54,16 @@ static void scenario() {
         else if (streq(k, "graph")) { using namespace tbb::flow; graph g; function_node<int, int> f(g, unlimited, [](int x) { body(); return x; }); function_node<int, continue_msg> s(g, serial, [](int) { body(); return continue_msg(); }); make_edge(f, s);
             guarded("graph::wait_for_all", [&] { f.try_put(1); f.try_put(2); g.wait_for_all(); });
             if (!thrown.empty() && !g.is_cancelled()) vf_fail("graph not cancelled after an exception"); g.reset(); mask = 0; thrown.clear(); int before = inv; guarded("graph (after reset)", [&] { f.try_put(3); g.wait_for_all(); }); if (inv != before + 2) vf_fail("graph not reusable after reset"); }
+        else if (streq(k, "same_arena")) {   // a body enters (task_arena::execute) the arena it already runs in, comes back, and throws later: the exception still belongs to its own group
+            tbb::task_group tg; guarded("task_group::wait", [&] { tg.run([&] { ar.execute([] { vf_point(); }); body(); }); tg.run([&] { tbb::task_arena same{tbb::attach{}}; same.execute([] { vf_point(); }); body(); }); tg.run([] { body(); }); tg.wait(); });
+            thrown.clear(); mask = (int)vf_param_int("mask2", 0) << inv;
+            guarded("parallel_for", [&] { tbb::parallel_for(tbb::blocked_range<int>(0, 3, 1), [&](const tbb::blocked_range<int>&) { ar.execute([] { vf_point(); }); body(); }, tbb::simple_partitioner()); }); }
         else if (streq(k, "execute")) { tbb::task_arena inner(1); guarded("task_arena::execute", [&] { inner.execute([] { body(); tbb::task_group tg; tg.run([] { body(); }); tg.wait(); }); }); }
         else vf_fail("unknown kind");
     });
     vf_window(0); vf_liveness(0);
     if (objs != 0) vf_fail("%d copies of a body/argument object were not destroyed", objs);
+    if (booms != 0) vf_fail("%d exception objects thrown by bodies are still alive after every group was waited for, reset or destroyed (a captured exception was overwritten by a second thrower's or never released)", booms);
     vf_outcome("inv=%d thrown=%zu caught=%d", inv, thrown.size(), caught_at);
 }
 int main(int argc, char** argv) { return vf_main(argc, argv, scenario); }
